@@ -220,6 +220,7 @@ def finish(prop, tier, level, coverage, assumptions, t0, known, new, replay_dir=
     for key, (k, info) in known.items():
         log("KNOWN-FINDING: property=%s %s [%s]" % (prop, k.get("what", ""), key))
     rc = 0
+    shutil.rmtree(os.path.join(VERIF, "work", "violations", prop), ignore_errors=True)
     if new:
         d = os.path.join(VERIF, "work", "violations", prop)
         os.makedirs(d, exist_ok=True)
